@@ -80,6 +80,7 @@ def gen_world(r):
     for c in w.classes:
         c["init"] = r.choice([None, None, 0, 1, 2])
         c["reopen"] = [(w.fresh("r"), "public")] if r.random() < 0.3 else []
+        c["singleton_block"] = r.random() < 0.5
     return w
 
 
@@ -102,8 +103,14 @@ def render(w):
             lines.append("  extend %s" % x)
         if c["init"] is not None:
             lines += ["  def initialize(%s)" % ", ".join("a%d" % i for i in range(c["init"])), "    @v = 1", "  end"]
-        for n in c["static"]:
-            lines += ["  def self.%s" % n, "    1", "  end"]
+        if c["static"] and len(c["name"]) % 2 == 0 or c.get("singleton_block"):
+            lines.append("  class << self")
+            for n in c["static"]:
+                lines += ["    def %s" % n, "      1", "    end"]
+            lines.append("  end")
+        else:
+            for n in c["static"]:
+                lines += ["  def self.%s" % n, "    1", "  end"]
         for vis in suggen.VIS:
             ms = [n for n, v in c["inst"] if v == vis]
             if ms:
